@@ -949,7 +949,42 @@ func (c *Ctx) stepIsLackingChild(pk string) {
 				}
 			}
 		}
+		// or a counting loop over the neighbour list (`neigh := cur.Neigh(); for i := 0; i < len(neigh); i++`)
+		for _, s := range st {
+			fs, isFor := s.(*ast.ForStmt)
+			if !isFor || !isIndexLoop(info, fs) {
+				continue
+			}
+			ast.Inspect(fs.Cond, func(m ast.Node) bool {
+				call, isCall := m.(*ast.CallExpr)
+				if !isCall || len(call.Args) != 1 {
+					return true
+				}
+				if id, isId := call.Fun.(*ast.Ident); !isId || id.Name != "len" {
+					return true
+				}
+				isNeigh := func(e ast.Expr) bool {
+					if cl, ok := unparen(e).(*ast.CallExpr); ok {
+						if sel, ok := unparen(cl.Fun).(*ast.SelectorExpr); ok && sel.Sel.Name == "Neigh" {
+							return true
+						}
+					}
+					return false
+				}
+				if isNeigh(call.Args[0]) {
+					inChildren = true
+				} else if lo, isVar := info.Uses[identOf(call.Args[0])].(*types.Var); isVar && identOf(call.Args[0]) != nil {
+					for _, d := range localDefs(info, fi.Decl.Body, lo) {
+						if isNeigh(d) {
+							inChildren = true
+						}
+					}
+				}
+				return true
+			})
+		}
 		conds, okc := c.pathConds(info, fi.Decl.Body, inc, true)
+		conds = flattenConds(conds)
 		// the conjunct comparing a child's count with 0
 		var cmp *ast.BinaryExpr
 		for _, cd := range conds {
